@@ -114,11 +114,17 @@ Qed.
 
 (* ---------- setters ---------- *)
 
-Theorem set_init_spec : forall s v, 0 <= v -> init_size (set_init s v) = v /\ bsize (set_init s v) = bsize s.
+Theorem set_init_spec : forall s v, 0 <= v ->
+  init_size (set_init s v) = v /\ bsize (set_init s v) = Z.max (bsize s) v.
 Proof.
   intros s v Hv. unfold init_size, set_init. cbn [bsize bbytes].
-  split; [apply resize_length; exact Hv | reflexivity].
+  split; [apply resize_length; exact Hv |].
+  destruct (Z.ltb_spec (bsize s) v) as [Hlt|Hge]; lia.
 Qed.
+
+Theorem set_contents_spec : forall s bs,
+  bbytes (set_contents s bs) = bs /\ bsize (set_contents s bs) = bsize s.
+Proof. intros s bs. unfold set_contents. cbn [bsize bbytes]. split; reflexivity. Qed.
 
 Theorem set_size_spec : forall s v, 0 <= v -> bsize (set_size s v) = v /\
   bbytes (set_size s v) = firstn (Z.to_nat (Z.min v (zlen (bbytes s)))) (bbytes s) /\
@@ -130,6 +136,14 @@ Proof.
   - rewrite Z.min_l by lia. split; [reflexivity|].
     unfold zlen in *. rewrite firstn_length. lia.
   - rewrite Z.min_r by lia. rewrite zlen_to_nat, firstn_all. split; reflexivity.
+Qed.
+
+Theorem set_size_truncates_anything : forall s v, 0 <= v -> zlen (bbytes (set_size s v)) <= v.
+Proof.
+  intros s v Hv. unfold set_size. cbn [bbytes].
+  destruct (Z.ltb_spec v (zlen (bbytes s))) as [H1|H1].
+  - unfold zlen in *. rewrite firstn_length. lia.
+  - exact H1.
 Qed.
 
 Theorem poke_length : forall s i b s', poke s i b = Ok s' -> init_size s' = init_size s /\ bsize s' = bsize s.
@@ -145,18 +159,20 @@ Qed.
 
 Theorem bstep_inv : forall s o, BInv s -> bop_ok s o = true -> BInv (bstep s o).
 Proof.
-  intros s o [H0 H1] Hok. destruct o as [v|v|i b]; cbn [bstep bop_ok] in *.
+  intros s o [H0 H1] Hok. destruct o as [v|v|i b|bs]; cbn [bstep bop_ok] in *.
   - apply Z.leb_le in Hok.
     destruct (set_size_spec s v Hok) as [E1 [_ E3]].
     unfold BInv. fold (init_size (set_size s v)). rewrite E1, E3. lia.
-  - apply andb_true_iff in Hok. destruct Hok as [Ha Hb].
-    apply Z.leb_le in Ha. apply Z.leb_le in Hb.
-    destruct (set_init_spec s v Ha) as [E1 E2].
+  - apply Z.leb_le in Hok.
+    destruct (set_init_spec s v Hok) as [E1 E2].
     unfold BInv. fold (init_size (set_init s v)). rewrite E1, E2. lia.
   - destruct (poke s i b) as [s'|e] eqn:E.
     + destruct (poke_length s i b s' E) as [E1 E2].
       unfold BInv. fold (init_size s'). rewrite E1, E2. unfold init_size. lia.
     + split; assumption.
+  - apply Z.leb_le in Hok.
+    destruct (set_contents_spec s bs) as [E1 E2].
+    unfold BInv. rewrite E1, E2. lia.
 Qed.
 
 Theorem brun_inv : forall ops s, BInv s -> BInv (brun s ops).
@@ -230,8 +246,8 @@ Qed.
 (* ---------- a non-trivial run ---------- *)
 
 Example brun_example :
-  brun {| bsize := 8; bbytes := [1;2;3;4;5;6] |} [BSetSize 4; BSetInit 2; BSetSize 10; BSetInit 7]
-  = {| bsize := 10; bbytes := [1;2;0;0;0;0;0] |}.
+  brun {| bsize := 8; bbytes := [1;2;3;4;5;6] |} [BSetSize 4; BSetInit 2; BSetInit 7; BSetContents [9;9]; BSetSize 1]
+  = {| bsize := 1; bbytes := [9] |}.
 Proof. vm_compute. reflexivity. Qed.
 
 Print Assumptions init_size_is_len.
@@ -242,6 +258,8 @@ Print Assumptions resize_prefix.
 Print Assumptions resize_padding.
 Print Assumptions set_init_spec.
 Print Assumptions set_size_spec.
+Print Assumptions set_contents_spec.
+Print Assumptions set_size_truncates_anything.
 Print Assumptions bstep_inv.
 Print Assumptions brun_inv.
 Print Assumptions reload_ok.
